@@ -36,6 +36,7 @@ type c06Target struct {
 	defined bool
 	score   int64
 	key     string // for tn93: tuple that makes two distances bit-identical in any implementation
+	unsure  bool   // tn93: defined by the formula but within 0.02 of the edge of its domain
 }
 
 func c06Rank(q FaRec, targets []FaRec, measure string) []c06Target {
@@ -53,6 +54,7 @@ func c06Rank(q FaRec, targets []FaRec, measure string) []c06Target {
 			ct.dist, ct.defined, margin = pc.tn93Dist()
 			if ct.defined && margin < 0.02 {
 				ct.defined = false // too close to the edge of the domain to compare floats reliably
+				ct.unsure = true   // gofasta may well compute a finite distance for it, and rank it anywhere
 			}
 			ct.key = fmt.Sprint(pc.P1, pc.P2, pc.Q, pc.L, pc.tA, pc.tC, pc.tG, pc.tT)
 		}
@@ -311,7 +313,14 @@ func checkC06(c c06Case, o *Obs) error {
 			if K > 0 && sure > K {
 				sure = K
 			}
-			if len(resDefined) < sure {
+			// near-singular targets (unsure) that were returned may rightly hold slots: their true distance can be anything
+			returnedUnsure := 0
+			for _, id := range res {
+				if byID[id].unsure {
+					returnedUnsure++
+				}
+			}
+			if len(resDefined)+returnedUnsure < sure {
 				return fmt.Errorf("query %s tn93: only %d defined targets returned, at least %d qualify: got %v all %v", q.ID, len(resDefined), sure, res, ids(sorted))
 			}
 			if len(resDefined) > 0 {
